@@ -760,3 +760,68 @@ package restful
 //@ loop 0 invariant mux: muxExact(newServeMux, newServices)
 //@ loop 0 invariant removed: forall(0, len(newServices), func(k int) bool { return newServices[k].rootPath != ws.rootPath })
 //@ loop 0 invariant kept: forall(0, it_i, func(j int) bool { return c.webServices[j].rootPath != ws.rootPath ==> exists(0, len(newServices), func(k int) bool { return newServices[k] == c.webServices[j] }) })
+
+// ---------------------------------------------------------------------------
+// building and registering routes (C04, C11, C12, C14)
+
+//@ func concatPath
+//@ props C04 C14
+//@ requires TrimRightSlashEnabled
+//@ ensures result == model_strings_TrimRight(rootPath, "/") + "/" + model_strings_TrimLeft(routePath, "/")
+//@ modifies nothing
+//@ nopanic
+
+//@ func (*Route).postBuild
+//@ props C04 C14
+//@ requires r != nil
+//@ modifies r.pathParts, r.hasCustomVerb
+//@ ensures tokens: TrimRightSlashEnabled ==> isTokens(r.pathParts, r.Path)
+//@ ensures verb: r.hasCustomVerb == hasVerb(r.Path)
+//@ nopanic
+
+//@ func newPathExpression
+//@ props C04 C11 C14
+//@ trusted A-JSR: compiles the template into a regular expression (regexp is outside the subset)
+//@ ensures result1 == nil ==> result0 != nil && fresh(result0)
+//@ ensures (result1 == nil) == pathCompiles(path)
+//@ modifies nothing
+//@ nopanic
+
+//@ func nameOfFunction
+//@ props C04 C11 C14
+//@ trusted not verified: uses reflection and runtime.FuncForPC to name a function for documentation
+//@ modifies nothing
+//@ nopanic
+
+//@ func (*RouteBuilder).Build
+//@ props C04 C11 C14
+//@ requires b != nil && b.function != nil && TrimRightSlashEnabled
+//@ requires valid: pathCompiles(b.currentPath)
+//@ ensures method: result.Method == b.httpMethod && same(result.Function, b.function) && same(result.Filters, b.filters) && same(result.If, b.conditions) && same(result.Produces, b.produces) && same(result.Consumes, b.consumes)
+//@ ensures path: result.Path == model_strings_TrimRight(b.rootPath, "/") + "/" + model_strings_TrimLeft(b.currentPath, "/")
+//@ ensures tokens: isTokens(result.pathParts, result.Path) && result.hasCustomVerb == hasVerb(result.Path)
+//@ ensures encoding: result.contentEncodingEnabled == b.contentEncodingEnabled
+//@ modifies nothing
+//@ nopanic
+
+//@ func (*WebService).Route
+//@ props C11 C12
+//@ requires w != nil && builder != nil && builder.function != nil && TrimRightSlashEnabled && routesLockOf(w) == 0
+//@ requires valid: pathCompiles(builder.currentPath)
+//@ modifies w.routes, elems(w.routes), builder.produces, builder.consumes
+//@ ensures appended: len(w.routes) == old(len(w.routes)) + 1 && forall(0, old(len(w.routes)), func(k int) bool { return same(w.routes[k], old(w.routes[k])) })
+//@ ensures lock: routesLockOf(w) == 0 && result == w
+//@ nopanic
+
+//@ func (*WebService).RemoveRoute
+//@ props C11 C12
+//@ requires w != nil && routesLockOf(w) == 0
+//@ modifies w.routes
+//@ ensures disabled: !w.dynamicRoutes ==> result != nil && same(w.routes, old(w.routes))
+//@ ensures removed: w.dynamicRoutes ==> result == nil && forall(0, len(w.routes), func(k int) bool { return !(w.routes[k].Method == method && w.routes[k].Path == path) })
+//@ ensures kept: w.dynamicRoutes ==> forall(0, old(len(w.routes)), func(j int) bool { return !(old(w.routes[j]).Method == method && old(w.routes[j]).Path == path) ==> exists(0, len(w.routes), func(k int) bool { return same(w.routes[k], old(w.routes[j])) }) })
+//@ ensures lock: routesLockOf(w) == 0
+//@ nopanic
+//@ loop 0 invariant new: fresh(newRoutes) && same(w.routes, old(w.routes))
+//@ loop 0 invariant removed: forall(0, len(newRoutes), func(k int) bool { return !(newRoutes[k].Method == method && newRoutes[k].Path == path) })
+//@ loop 0 invariant kept: forall(0, it_i, func(j int) bool { return !(w.routes[j].Method == method && w.routes[j].Path == path) ==> exists(0, len(newRoutes), func(k int) bool { return same(newRoutes[k], w.routes[j]) }) })
